@@ -39,6 +39,7 @@ class SimFile(object):
         self.stats = stats if stats is not None else {}
         self.in_write = None    # data of the write call in progress (crash observers)
         self.closed = False
+        self.invoked = []       # (stamp, raw) of every write call entered (oracle use)
 
     # -- helpers
     def _count(self, k):
@@ -51,6 +52,10 @@ class SimFile(object):
         s = _sched._CURRENT
         if s is not None:
             s.yield_point(tag)
+
+    def _stamp(self):
+        s = _sched._CURRENT
+        return s.stamp() if s is not None else 0
 
     # -- file API
     def write(self, data):
@@ -67,6 +72,7 @@ class SimFile(object):
         if self.dead:
             return len(data)
         self.in_write = raw
+        self.invoked.append((self._stamp(), raw))
         try:
             self._yield("file.write")           # crash point: inside write, nothing persisted yet
             if self.p_io_error and self.fault is not None and self.fault.chance(self.p_io_error, "io_error"):
